@@ -116,6 +116,9 @@ def pat_summary(p):
         return ('or', tuple(pat_summary(x) for x in p['pats']))
     if k in ('ref', 'guard'):
         return pat_summary(p['pat'])
+    if k == 'slice':
+        # ('slice', element patterns, has a `..` rest)
+        return ('slice', tuple(pat_summary(x) for x in p.get('before', []) + p.get('after', [])), bool(p.get('mid')))
     if k == 'expr':
         if 'lit' in p:
             return ('lit', p['lit']['v'])
@@ -374,6 +377,18 @@ class Prov:
             return recv
         if parent.get('k') == 'call':
             return ('unknown', 'closure-param-of-call')
+        if parent.get('k') == 'let' and parent.get('pat', {}).get('k') == 'bind':
+            # a named local closure: its parameter is whatever the calls `name(args)` pass
+            hid = parent['pat']['hid']
+            vals = []
+            for n in fn.walk(lambda x: x['k'] == 'call' and not x.get('callee')):
+                f_ = n.get('f') or {}
+                while f_.get('k') in ('ref', 'wrap'):
+                    f_ = f_.get('e') or {}
+                if f_.get('k') == 'path' and f_.get('res', {}).get('hid') == hid and i < len(n['args']):
+                    vals.append(self.guarded_local(fn, n, self.eval(fn, n['args'][i], env, d), env, d))
+            if vals:
+                return join(vals)
         return ('unknown', 'closure-param')
 
     def guard_terms(self, fn, node, env, d):
@@ -388,7 +403,7 @@ class Prov:
                 c = self.eval(fn, pc[1], env, d)
                 if c == ('const', True) or c[0] == 'unknown':
                     continue
-                out.append(('if', abstract_cond(c), pc[2]))
+                out.append(canon_if(abstract_cond(c), pc[2]))
             elif pc[0] == 'match':
                 out.append(('match', abstract_cond(self.eval(fn, pc[1], env, d)), pc[2]))
             elif pc[0] == 'nomatch':
@@ -420,7 +435,7 @@ class Prov:
         if base is None or base == ('absent',):
             return ('absent',)
         tag = base[0]
-        if tag == 'diverge':
+        if tag in ('diverge', 'rec'):
             return base
         if tag == 'join':
             return join([self.project(b, how, d) for b in base[1]])
@@ -555,6 +570,20 @@ class Prov:
                         ps = pat_summary(st['pat'])
                         v = ('match', self.eval(fn, st['init'], env, d), ((('not', ps), ('early', self.eval(fn, r, env, d))), (ps, v)))
                     continue
+                m = st.get('init') if st['k'] == 'let' else st.get('e')
+                while m is not None and m.get('k') in ('wrap',):
+                    m = m.get('e')
+                if m is not None and m.get('k') == 'match' and any(ret_expr_of(a['body']) is not None or a['body'].get('k') == 'ret' for a in m['arms']):
+                    # arms that leave the function carry its value on that path; the other arms continue with the block
+                    arms = []
+                    for a in m['arms']:
+                        ps = pat_summary(a['pat'])
+                        if a.get('guard') is not None:
+                            ps = ('guarded', ps, self.eval(fn, a['guard'], env, d))
+                        r = a['body'].get('e') if a['body'].get('k') == 'ret' else ret_expr_of(a['body'])
+                        arms.append((ps, ('early', self.eval(fn, r, env, d)) if r is not None else v))
+                    v = ('match', self.eval(fn, m['scrut'], env, d), tuple(arms))
+                    continue
                 if st['k'] != 'stmt':
                     continue
                 x = st['e']
@@ -562,6 +591,8 @@ class Prov:
                     r = ret_expr_of(x['then'])
                     if r is not None:
                         v = ('if', self.eval(fn, x['cond'], env, d), ('early', self.eval(fn, r, env, d)), v)
+                elif x.get('k') == 'if' and _some_branch_returns(x):
+                    v = self._stmt_if(fn, x, v, env, d)
             return v
         # a block ending in a diverging statement
         if e['stmts']:
@@ -572,12 +603,34 @@ class Prov:
                 return ('diverge', last['e']['name'])
         return ('unit',)
 
+    def _stmt_if(self, fn, x, v, env, d):
+        """an if / else-if chain used as a statement: branches that `return r` end the function with r, the others go on
+        with the rest of the block (v)"""
+        def branch(b):
+            if b is None:
+                return v
+            bb = b
+            while bb.get('k') == 'wrap':
+                bb = bb['e']
+            if bb.get('k') == 'if':
+                return self._stmt_if(fn, bb, v, env, d)
+            r = ret_expr_of(b)
+            if r is not None:
+                return ('early', self.eval(fn, r, env, d))
+            if diverges(b):
+                return ('diverge', 'stmt')
+            return v
+        return ('if', self.eval(fn, x['cond'], env, d), branch(x['then']), branch(x.get('else')))
+
     def ev_wrap(self, fn, e, env, d):
         return self.eval(fn, e['e'], env, d)
     ev_ref = ev_wrap
     ev_cast = ev_wrap
-    ev_try = ev_wrap
     ev_repeat = ev_wrap
+
+    def ev_try(self, fn, e, env, d):
+        # `x?`: the Err alternatives of x leave the function; what continues is the Ok payload (Ok(v) is v here)
+        return strip_err(self.eval(fn, e['e'], env, d))
 
     def ev_unary(self, fn, e, env, d):
         v = self.eval(fn, e['e'], env, d)
@@ -678,6 +731,15 @@ class Prov:
                     'assert', 'assert_eq', 'assert_ne', 'debug_assert', 'debug_assert_eq'):
             return ('unit',)
         if name == 'matches':
+            x = e.get('exp')
+            while x is not None and x.get('k') in ('wrap', 'block') and (x.get('e') or x.get('expr')) is not None and not x.get('stmts'):
+                x = x.get('e') or x.get('expr')
+            if x is not None and x.get('k') == 'match' and len(x['arms']) == 2:
+                a0 = x['arms'][0]
+                if a0.get('guard') is None:
+                    return ('op', 'matches', (self.eval(fn, x['scrut'], env, d), ('pat', pat_summary(a0['pat']))))
+                # `matches!(x, pat if guard)`: keep it as the match it expands to
+                return self.ev_match(fn, x, env, d)
             return ('op', 'matches', self.macro_args(fn, e, env, d) + (('pat', e['text']),))
         if name == 'include_str' or name == 'env':
             return ('call', name + '!', (('const', e['text']),))
@@ -727,6 +789,9 @@ class Prov:
             return ('match', recv[1], tuple((p, self.map_over(t, clo, d)) for p, t in recv[2]))
         if tag == 'orelse':
             return ('orelse', self.map_over(recv[1], clo, d), self.map_over(recv[2], clo, d))
+        if tag == 'sel' and recv[1] in ('first', 'last', 'get', 'next', 'pop'):
+            # an element that may not exist: the mapped value exists only if it does
+            return ('if', ('op', 'is_some', (recv,)), self.apply_closure(clo, [recv], d), ('none',))
         return self.apply_closure(clo, [recv], d)
 
     def bind_params(self, fn, params, args, env, d):
@@ -758,6 +823,9 @@ class Prov:
                 self.bind_pat(p, t, env, d)
         elif k in ('ref', 'guard'):
             self.bind_pat(pat['pat'], term, env, d)
+        elif k == 'slice':
+            for p in pat.get('before', []) + pat.get('after', []):
+                self.bind_pat(p, self.project(term, ('elem',), d), env, d)
         elif k == 'or':
             for p in pat['pats']:
                 self.bind_pat(p, term, env, d)
@@ -858,6 +926,8 @@ class Prov:
                 return args[0] if args else ('unit',)
             if last == 'Err':
                 return ('err', args[0] if args else ('unit',))
+            if p.endswith(('borrow::Cow::Owned', 'borrow::Cow::Borrowed')) and len(args) == 1:
+                return args[0]      # a string wrapper, like `.into()`
             return ('ctor', p, tuple(args))
         if p in ('proc_macro2::Ident::new', 'syn::Ident::new', 'proc_macro2::Ident::new_raw'):
             return ('ident', args[0])
@@ -921,7 +991,8 @@ class Prov:
             return ('tuple', (('index',), recv))
         if meth == 'fold' and len(argn) == 2:
             init = ev(argn[0])
-            return join([init, self.apply_closure(ev(argn[1]), [('rec', 'fold-acc'), recv], d)])
+            # the accumulator is the initial value or (recursively) an earlier result, like a loop-carried variable
+            return join([init, self.apply_closure(ev(argn[1]), [join([init, ('rec', 'fold-acc')]), recv], d)])
         if meth in ('for_each', 'try_for_each'):
             if argn:
                 self.apply_closure(ev(argn[0]), [recv], d)
@@ -1008,6 +1079,19 @@ def ret_expr_of(block):
     return None
 
 
+def _some_branch_returns(x):
+    while x is not None:
+        xx = x
+        while xx.get('k') == 'wrap':
+            xx = xx['e']
+        if xx.get('k') != 'if':
+            return ret_expr_of(x) is not None
+        if ret_expr_of(xx['then']) is not None:
+            return True
+        x = xx.get('else')
+    return False
+
+
 def guards_of_stmt(st):
     out = []
     e = st.get('e') if st['k'] == 'stmt' else None
@@ -1017,6 +1101,14 @@ def guards_of_stmt(st):
         out.append(('if', e['cond'], True))
     if st['k'] == 'let' and st.get('els') is not None:
         out.append(('letelse', st['init'], pat_summary(st['pat'])))
+    # `let x = match s { P => v, Q => return r };` (or the same as a statement): what follows runs only if s is not Q
+    m = st.get('init') if st['k'] == 'let' else e
+    while m is not None and m.get('k') in ('wrap',):
+        m = m.get('e')
+    if m is not None and m.get('k') == 'match' and not diverges(m):
+        for a in m['arms']:
+            if a.get('guard') is None and diverges(a['body']):
+                out.append(('nomatch', m['scrut'], pat_summary(a['pat'])))
     return out
 
 
@@ -1149,8 +1241,8 @@ def leaves(t, conds=()):
         elif t[1] == ('const', False):
             yield from leaves(t[3], conds)
         else:
-            yield from leaves(t[2], conds + (('if', t[1], True),))
-            yield from leaves(t[3], conds + (('if', t[1], False),))
+            yield from leaves(t[2], conds + (canon_if(t[1], True),))
+            yield from leaves(t[3], conds + (canon_if(t[1], False),))
     elif tag == 'list':
         for x in t[1]:
             yield from leaves(x, conds)
@@ -1172,6 +1264,36 @@ def leaves(t, conds=()):
         yield conds, t
 
 
+def strip_err(t, depth=0):
+    tag = t[0]
+    if tag == 'err':
+        return ('diverge', 'ret')
+    if depth > 6:
+        return t
+    if tag == 'join':
+        return join([strip_err(m, depth + 1) for m in t[1]])
+    if tag == 'if':
+        return ('if', t[1], strip_err(t[2], depth + 1), strip_err(t[3], depth + 1))
+    if tag == 'match':
+        return ('match', t[1], tuple((p, strip_err(a, depth + 1)) for p, a in t[2]))
+    if tag == 'orelse':
+        return ('orelse', strip_err(t[1], depth + 1), strip_err(t[2], depth + 1))
+    if tag == 'early':
+        return t
+    return t
+
+
+def canon_if(c, pol):
+    """one spelling per condition: `!x` taken = x not taken; `a == b` not taken = `a != b` taken (and vice versa)"""
+    while c[0] == 'op' and c[1] == '!' and len(c[2]) == 1:
+        c = c[2][0]
+        pol = not pol
+    if not pol and c[0] == 'op' and c[1] in ('==', '!=') and len(c[2]) == 2:
+        c = ('op', '!=' if c[1] == '==' else '==', c[2])
+        pol = True
+    return ('if', c, pol)
+
+
 def strict_diverge(t):
     """a value computed from a diverging expression through strict constructors never exists"""
     while True:
@@ -1189,7 +1311,7 @@ def strict_diverge(t):
 def pat_may_match(pat, term):
     """can a value described by `term` match pattern summary `pat`?  (False only when certainly not)"""
     k = pat[0]
-    if k in ('wild', 'bind', 'other', 'not'):
+    if k in ('wild', 'bind', 'other', 'not', 'slice'):
         return True
     if k == 'guarded':
         return pat_may_match(pat[1], term)
@@ -1328,6 +1450,8 @@ def show_pat(p):
         return '(' + ','.join(show_pat(x) for x in p[1]) + ')'
     if p[0] == 'or':
         return '|'.join(show_pat(x) for x in p[1])
+    if p[0] == 'slice':
+        return '[' + ','.join(show_pat(x) for x in p[1]) + (',..' if p[2] else '') + ']'
     if p[0] == 'not':
         return 'not ' + show_pat(p[1])
     if p[0] == 'guarded':
